@@ -44,9 +44,18 @@ def same_others(p, snap):
     return all(st.cell(p.ex.det_parts[k]).fields.get("_array") is v for k, v in snap.items())
 
 
+def krec(ex, key=None):
+    """Per-PATH record of the contracted calls (paths are explored by re-running the setup: a record shared between paths would
+    describe the last path only)."""
+    d = ex.__dict__.setdefault("_krec", {})
+    return d if key is None else d.setdefault(key, {})
+
+
 def kernel_contract(qual, rec, make):
+    name = qual.split("::")[-1]
+
     def apply(ex, args, kwargs, fr):
-        rec.setdefault("calls", []).append((list(args), dict(kwargs)))
+        krec(ex, name).setdefault("calls", []).append((list(args), dict(kwargs)))
         return make(ex, args, kwargs)
     return Contract(qual, apply, f"{qual.split('::')[-1]}: kernel under its own contract (C15)")
 
@@ -115,9 +124,9 @@ def arr3(ex, name, n):
 
 def kw(call, name, pos=None):
     args, kwargs = call
-    if name in kwargs:
-        return kwargs[name]
-    return args[pos] if pos is not None and pos < len(args) else None
+    v = kwargs[name] if name in kwargs else (args[pos] if pos is not None and pos < len(args) else None)
+    # an optional that reached a call was ordered / used before on this path (a None would have raised there): its value
+    return v.val if isinstance(v, VMaybe) else v
 
 
 def is_array_of(p, v, items):
@@ -170,12 +179,12 @@ def ipc_model(u: Unit):
         for p in ps:
             now = D.bucket_array(p.st, p.ex.det_parts["pixel"])
             if kind == "CCD":
-                u.oblige(p, "model.ipc.refuses_other_detectors", p.kind == "raise" and p.exc_name() == "TypeError" and not rec.get("calls") and now is p.ex.pix_in, {}, IPC_REPLAY)
+                u.oblige(p, "model.ipc.refuses_other_detectors", p.kind == "raise" and p.exc_name() == "TypeError" and not krec(p.ex, "compute_ipc_convolution").get("calls") and now is p.ex.pix_in, {}, IPC_REPLAY)
                 continue
             if p.kind != "return":
                 u.oblige(p, "model.ipc.no_raise", False, {"exc": p.exc_name()}, IPC_REPLAY)
                 continue
-            calls = rec.get("calls", [])
+            calls = krec(p.ex, "compute_ipc_convolution").get("calls", [])
             ok = len(calls) == 1
             c = calls[0] if ok else ([], {})
             got_in = kw(c, "input", 0)
@@ -235,6 +244,7 @@ def persistence_model(name, kernel, list2, has_caps):
                 cfg.contracts[kq] = kernel_contract(kq, rec, make)
 
                 def ctor(ex, args, kwargs, fr):
+                    rec = krec(ex, "ctor")
                     rec["ctor"] = dict(kwargs)
                     me = args[0]
                     tci = ex.world.cls(f"{pq}::SimpleTrap")
@@ -272,7 +282,8 @@ def persistence_model(name, kernel, list2, has_caps):
                     if p.kind != "return":
                         u.oblige(p, f"model.{name}.no_raise[{tag}]", False, {"exc": p.exc_name(), "msg": str(p.st.cell(p.value).fields.get("args"))[:200]}, PERSIST_REPLAY)
                         continue
-                    calls = rec.get("calls", [])
+                    calls = krec(p.ex, kernel).get("calls", [])
+                    rec = krec(p.ex, "ctor")
                     ok = len(calls) == 1
                     c = calls[0] if ok else ([], {})
                     pix, trapped = kw(c, "pixel_array", 0), kw(c, "all_trapped_charge", 1)
@@ -364,3 +375,89 @@ def conversion_model(u: Unit):
                                                                    D.frame_elem(p.st, D.bucket_array(p.st, p.ex.det_parts["photon"])) is not None) and D.frame_elem(p.st, D.bucket_array(p.st, p.ex.det_parts["photon"])) == x, {}, CONV_REPLAY)
     u.cover("model.simple_conversion.cover", ps, lambda p: p.kind == "return")
     u.cover("model.simple_conversion.cover_refusal", ps, lambda p: p.kind == "raise")
+
+
+CDM_REPLAY = lambda w: {"code": """
+import numpy as np, verif_probes as VP, importlib
+M = importlib.import_module('pyxel.models.charge_transfer.cdm')
+got = {}
+def mk(tag):
+    def fake(**kw):
+        got.clear(); got.update(kw); got['kernel'] = tag; return kw['array'] * 0.5
+    return fake
+M.run_cdm_parallel, M.run_cdm_serial = mk('parallel'), mk('serial')
+VIOLATED, DETAIL = False, 'the kernel of the requested direction gets the pixel array and every parameter under its own name; its result is stored'
+x = np.arange(12.0).reshape(3, 4) + 100
+for direction in ('parallel', 'serial'):
+    det = VP.detector(full_well_capacity=5000.0); det.environment.temperature = 150.0; det.pixel.array = x.copy()
+    M.cdm(det, direction=direction, beta=0.3, trap_release_times=[0.01, 0.02], trap_densities=[10.0, 20.0], sigma=[1e-15, 2e-15], max_electron_volume=0.7, transfer_period=0.5,
+          charge_injection=(direction == 'parallel'))
+    ok = (got.get('kernel') == direction and np.array_equal(got['array'], x) and got['vg'] == 0.7 and got['t'] == 0.5 and got['fwc'] == 5000.0 and got['beta'] == 0.3
+          and got['tr'].tolist() == [0.01, 0.02] and got['nt'].tolist() == [10.0, 20.0] and got['sigma'].tolist() == [1e-15, 2e-15] and np.array_equal(det.pixel.array, x * 0.5)
+          and (direction == 'serial' or (got['charge_injection'] is True and got['chg_inj_parallel_transfers'] == 3)))
+    if not ok:
+        VIOLATED, DETAIL = True, f"direction {direction}: kernel {got.get('kernel')} vg={got.get('vg')} t={got.get('t')} fwc={got.get('fwc')} beta={got.get('beta')} tr={got.get('tr')} nt={got.get('nt')} sigma={got.get('sigma')}"; break
+    det2 = VP.detector(full_well_capacity=5000.0); det2.environment.temperature = 150.0; det2.pixel.array = x.copy()
+    M.cdm(det2, direction=direction, beta=0.3, trap_release_times=[0.01], trap_densities=[10.0], sigma=[1e-15], max_electron_volume=0.7, transfer_period=0.5, full_well_capacity=900.0)
+    if got['fwc'] != 900.0:
+        VIOLATED, DETAIL = True, f'full_well_capacity argument 900 ignored: kernel got {got["fwc"]}'; break
+    M.cdm(det2, direction=direction, beta=0.3, trap_release_times=[0.01], trap_densities=[10.0], sigma=[1e-15], max_electron_volume=0.7, transfer_period=0.5, full_well_capacity=0.0)
+    if got['fwc'] != 0.0:
+        VIOLATED, DETAIL = True, f'full_well_capacity argument 0.0 replaced: kernel got {got["fwc"]}'; break
+""", "expect": "cdm hands the detector's pixel array and its own parameters to the kernel of the requested direction and stores the result"}
+
+
+@unit("C15", "model.cdm")
+def cdm_model(u: Unit):
+    fi = u.fn(CT + "cdm.py::cdm")
+    NAMES = {"vg": "max_electron_volume", "t": "transfer_period", "beta": "beta"}
+    for direction in ("parallel", "serial"):
+        rec = {}
+        cfg = D.install(Cfg("real"))
+        for kn in ("run_cdm_parallel", "run_cdm_serial"):
+            q = CT + f"cdm.py::{kn}"
+            cfg.contracts[q] = kernel_contract(q, rec.setdefault(kn, {}), lambda ex, args, kwargs: arr2(ex, "cdm_out")[0])
+
+        def setup(ex, direction=direction):
+            det = D.mk_detector(ex, u, prior="fresh")
+            settings(ex, u, det)
+            ex.pix_in, _ = arr2(ex, "pix0")
+            ex.st.cell(ex.det_parts["pixel"]).fields["_array"] = ex.pix_in
+            ex.snap = snapshot(ex)
+            ex.lists = {n: [VFloat(z3.Real(f"{n}{i}")) for i in range(2)] for n in ("tr", "nt", "sigma")}
+            given = ex.st.branch(z3.Bool("fwc_given"))
+            return [det], {"direction": VStr(direction), "beta": VFloat(z3.Real("beta")), "trap_release_times": ex.st.alloc(HList(list(ex.lists["tr"]))),
+                           "trap_densities": ex.st.alloc(HList(list(ex.lists["nt"]))), "sigma": ex.st.alloc(HList(list(ex.lists["sigma"]))),
+                           "full_well_capacity": VFloat(z3.Real("fwc_arg")) if given else NONE, "max_electron_volume": VFloat(z3.Real("max_electron_volume")),
+                           "transfer_period": VFloat(z3.Real("transfer_period")), "charge_injection": VBool(z3.Bool("charge_injection"))}
+        ps = u.paths(fi, setup, cfg, label=f"cdm[{direction}]")
+        used = z3.If(z3.Bool("fwc_given"), z3.Real("fwc_arg"), z3.Real("fwc_char"))
+        for p in ps:
+            now = D.bucket_array(p.st, p.ex.det_parts["pixel"])
+            mine, other = krec(p.ex, f"run_cdm_{direction}").get("calls", []), krec(p.ex, f"run_cdm_{'serial' if direction == 'parallel' else 'parallel'}").get("calls", [])
+            if p.kind != "return":
+                u.oblige(p, f"model.cdm.refusal_changes_nothing[{direction}]", not mine and not other and now is p.ex.pix_in and same_others(p, p.ex.snap), {"exc": p.exc_name()}, CDM_REPLAY)
+                continue
+            ok = len(mine) == 1 and not other
+            c = mine[0] if ok else ([], {})
+            arr_in = kw(c, "array")
+            goal = z3.BoolVal(False)
+            if ok and p.ex.is_arr(arr_in) and arr_in.addr == p.ex.pix_in.addr and all(kw(c, k) is not None for k in ("vg", "t", "beta", "fwc", "tr", "nt", "sigma")):
+                parts = [to_real(kw(c, k)) == z3.Real(v) for k, v in NAMES.items()] + [to_real(kw(c, "fwc")) == used]
+                for k in ("tr", "nt", "sigma"):
+                    a = is_array_of(p, kw(c, k), p.ex.lists[k])
+                    parts.append(a if a is not False else z3.BoolVal(False))
+                if direction == "parallel":
+                    ci, n = kw(c, "charge_injection"), kw(c, "chg_inj_parallel_transfers")
+                    parts.append(zb(ci.v) == z3.Bool("charge_injection") if isinstance(ci, VBool) else z3.BoolVal(False))
+                    parts.append(z_int(n.v) == R if isinstance(n, VInt) else z3.BoolVal(False))
+                goal = z3.And(*parts)
+            u.oblige(p, f"model.cdm.kernel_of_the_direction_gets_own_arguments[{direction}]", goal, {}, CDM_REPLAY)
+            out = D.frame_elem(p.st, now)
+            u.oblige(p, f"model.cdm.result_stored[{direction}]", out == z3.Function("cdm_out", z3.IntSort(), z3.IntSort(), z3.RealSort())(G[0], G[1]) if out is not None else z3.BoolVal(False), {}, CDM_REPLAY)
+            u.oblige(p, f"model.cdm.other_buckets_untouched[{direction}]", zb(same_others(p, p.ex.snap)), {}, CDM_REPLAY)
+            # what the wrapper lets through is inside the ranges it announces
+            u.oblige(p, f"model.cdm.accepted_inside_announced_ranges[{direction}]", z3.And(z3.Real("beta") >= 0, z3.Real("beta") <= 1, used >= 0, used <= 10000000, z3.Real("max_electron_volume") >= 0,
+                                                                                               z3.Real("max_electron_volume") <= 1, z3.Real("transfer_period") >= 0, z3.Real("transfer_period") <= 10), {}, CDM_REPLAY)
+        u.cover(f"model.cdm.cover[{direction}]", ps, lambda p: p.kind == "return")
+        u.cover(f"model.cdm.cover_refusal[{direction}]", ps, lambda p: p.kind == "raise")
